@@ -305,6 +305,30 @@ func (m *Machine) loopModset(fn *ssa.Function, lp *Loop) *modset {
 					}
 					continue
 				}
+				name := ""
+				if com.IsInvoke() {
+					name = ifaceMethodKey(com)
+				} else if callee := com.StaticCallee(); callee != nil {
+					name = callee.String()
+				} else if bi, ok := com.Value.(*ssa.Builtin); ok {
+					name = "builtin:" + bi.Name()
+				}
+				if ro, ok := readonlyArgCallees[name]; ok {
+					// only the listed argument positions may be written by the callee
+					args := com.Args
+					if com.IsInvoke() {
+						args = append([]ssa.Value{com.Value}, args...)
+					}
+					for _, i := range ro.writes {
+						if i < len(args) {
+							add(args[i], nil)
+						}
+					}
+					if ro.ghost {
+						ms.allGhost = true
+					}
+					continue
+				}
 				ms.allGhost = true
 				ms.allMemForArgs(m, com, add)
 			}
@@ -423,4 +447,25 @@ func (m *Machine) havocValue(st *State, name string, typ types.Type, entry Value
 	}
 	m.unsup("havoc of loop-carried %T", entry)
 	return nil
+}
+
+type roCallee struct {
+	writes []int // argument positions (receiver first) the callee may write through
+	ghost  bool  // touches ghost state (input position, output stream)
+}
+
+// readonlyArgCallees: externals known not to write through (all of) their arguments.
+var readonlyArgCallees = map[string]roCallee{
+	"(*bytes.Buffer).Write":     {writes: []int{0}},
+	"(*bytes.Buffer).WriteByte": {writes: []int{0}},
+	"(*bytes.Buffer).Bytes":     {},
+	"io.Writer.Write":           {ghost: true},
+	"io.ReadFull":               {writes: []int{1}, ghost: true},
+	"builtin:len":               {},
+	"builtin:cap":               {},
+	"builtin:copy":              {writes: []int{0}},
+	"builtin:append":            {},
+	"strings.Compare":           {},
+	"strings.Contains":          {},
+	"error.Error":               {},
 }
